@@ -62,6 +62,17 @@ VARIANTS = [
                              "def __setstate__(self, state):\n    self._chunks_list = []\n"
                              "    for ch in state['chunks']:\n        self.append(ch)"),
       note="unpickling re-appends (and re-thins) the stored chunks", expect_rule="C19.R3"),
+    V("c19_post_guard_negated", "M", S, "_make_error_summary",
+      *replace_expr("posterior_error_log.is_some()", "not posterior_error_log.is_some()"),
+      note="posterior counts skipped when a posterior log exists", expect_rule="C19.R2"),
+    V("c19_record_swapped", "M", S, "_make_error_summary",
+      *replace_expr("ErrorSummaryForOneCode(ec, error_msg, count, None)",
+                    "ErrorSummaryForOneCode(ec, error_msg, None, count)"),
+      note="overall count stored as posterior count", expect_rule="C19.R2"),
+    V("c19_post_zero_only", "M", S, "_make_error_summary",
+      lambda nd: isinstance(nd, ast.Compare) and ast.unparse(nd) == "ec == 0",
+      lambda nd: expr("ec != 0"), nth=1,
+      note="posterior loop keeps only code 0", expect_rule="C19.R2"),
     # ---- twins
     V("c19_t_book_order", "T", N, "NUTSKernel",
       lambda nd: isinstance(nd, ast.AnnAssign) and ast.unparse(nd.target) == "error_book",
